@@ -230,4 +230,163 @@ theorem runChain_total (env : GraphEnv) : ∀ (ts : List TCall) (F : CNF), (∀ 
       | error e => exact ⟨_, rfl⟩
       | ok G => exact ih G hrest
 
+/-! ### a whole line over a numeric formula -/
+
+theorem numeric_not_graph : ∀ fn ∈ evalFns, (gHandlers.lookup fn).isNone = true := by decide
+
+theorem shield_cliError_valueError {α : Type} (e : Err) (h : shield (Except.error e : Except Err α) = .cliError) :
+    e = .valueError := by
+  cases e <;> simp [shield] at h ⊢
+
+/-- the formula part of a numeric sub-command (`end_to_end`): a CLIError, or the result of the family model on a call
+`evalCallF` maps -/
+theorem buildFormula_numeric (env : GraphEnv) (g : SimpleG) (name : String) (fargs : List String) (h : HelperSpec)
+    (s : CliSpec) (hfind : helpers.find? (fun h => h.kind == "formula" && h.name == name) = some h)
+    (hspec : specOf h = some s) (hc : outcomeCovered s = true) (hf : inFragment s fargs = true) :
+    buildFormula env g (name :: fargs) = some (.error ()) ∨
+    ∃ r c, buildFormula env g (name :: fargs) = some (.ok (.result r)) ∧ evalCallF g c = some r := by
+  have hs := specOf_mem h s hspec
+  have he := (end_to_end h s hspec hc fargs hf).1
+  unfold cliOutcome dispatch at he
+  rw [hspec] at he
+  dsimp only at he
+  unfold dispatchSpec at he
+  unfold buildFormula
+  simp only [hfind, hspec]
+  cases hd : dispatchTemplate s fargs with
+  | error e =>
+    rw [hd] at he
+    cases e with
+    | cliError => exact Or.inl rfl
+    | crash x => rcases he with he | he <;> simp at he
+    | unsupported x => rcases he with he | he <;> simp at he
+  | ok tn =>
+    obtain ⟨t, ns⟩ := tn
+    rw [hd] at he
+    dsimp only at he ⊢
+    have htm := dispatchTemplate_mem s fargs t ns hd
+    cases hi : instantiate ns t with
+    | error e =>
+      rw [hi] at he
+      cases e with
+      | cliError => exact Or.inl rfl
+      | crash x => rcases he with he | he <;> simp at he
+      | unsupported x => rcases he with he | he <;> simp at he
+    | ok c =>
+      rw [hi] at he
+      dsimp only at he ⊢
+      have hfn : evalFns.contains c.fn = true := by
+        have hcf : c.fn = t.fn := by
+          unfold instantiate at hi
+          split at hi
+          · split at hi <;> cases hi
+          · split at hi
+            · cases hi
+            · split at hi
+              · cases hi; rfl
+              · cases hi
+        rw [hcf]
+        unfold outcomeCovered at hc
+        simp only [Bool.and_eq_true] at hc
+        have h5 := hc.2
+        split at h5
+        · rename_i t0 hts
+          rw [hts] at htm
+          simp at htm
+          subst htm
+          simp only [Bool.and_eq_true] at h5
+          exact h5.2
+        · cases h5
+      have hG : evalCallG env ns c = none := by
+        unfold evalCallG
+        have := numeric_not_graph c.fn (by simpa using hfn)
+        cases hl : gHandlers.lookup c.fn with
+        | none => rfl
+        | some f => rw [hl] at this; simp at this
+      cases hev : evalCall c with
+      | none => rw [hev] at he; rcases he with he | he <;> simp at he
+      | some r0 =>
+        rw [ctext_evalCall_of_F g c] at hev
+        cases hF : evalCallF g c with
+        | none => rw [hF] at hev; simp at hev
+        | some r =>
+          right
+          refine ⟨r, c, ?_, hF⟩
+          unfold evalCallAny
+          rw [hG, hF]
+          rfl
+
+/-- T-C18.T6 A WHOLE LINE, NO HYPOTHESIS ON THE BASE FORMULA.  `<numeric sub-command> <tokens> -T <chunk> -T …` with the
+formula part one of the nine numeric sub-commands of `end_to_end` on ANY tokens of the fragment, and every chunk empty,
+`none`, or one of the thirteen substitutions on ANY tokens of the fragment: the model answers, and the run ends in `ok` or
+in a `cliError`.  The well-formedness of the base formula is derived (`mapped_formula_wf`), the totality of the chain
+parser and of the chain is `parseChain_total` / `runChain_total`.  (`henv`: the bipartite graphs of the environment
+are well formed — not used by these chunks, a hypothesis of `chain_clean`.) -/
+theorem line_never_escapes_numeric (env : GraphEnv) (henv : ∀ i t B, env.bip i t = some B → BipWF B)
+    (line : List String) (name : String) (fargs : List String) (tcmds : List (List String))
+    (hsplit : splitT line = (name :: fargs) :: tcmds) (h : HelperSpec) (s : CliSpec)
+    (hfind : helpers.find? (fun h => h.kind == "formula" && h.name == name) = some h)
+    (hspec : specOf h = some s) (hc : outcomeCovered s = true) (hf : inFragment s fargs = true)
+    (hch : ∀ ch ∈ tcmds, ChunkCovered ch) :
+    cliOutcomeLine env line = some .ok ∨ cliOutcomeLine env line = some .cliError := by
+  have hbf := buildFormula_numeric env ⟨1, 0, [[], []], []⟩ name fargs h s hfind hspec hc hf
+  have hpc := parseChain_total tcmds hch
+  -- the model answers
+  have htot : ∃ o, cliOutcomeLine env line = some o := by
+    unfold cliOutcomeLine cliLineCNF
+    rw [hsplit]
+    dsimp only
+    rcases hbf with hb | ⟨r, c, hb, _⟩ <;> rcases hpc with hp | ⟨ts, hp, hts⟩ <;> rw [hb, hp]
+    · exact ⟨_, rfl⟩
+    · exact ⟨_, rfl⟩
+    · exact ⟨_, rfl⟩
+    · dsimp only
+      cases r with
+      | error e => exact ⟨_, rfl⟩
+      | ok F =>
+        dsimp only
+        obtain ⟨rc, hrc⟩ := runChain_total env ts F.toCNF hts
+        rw [hrc]
+        cases rc <;> exact ⟨_, rfl⟩
+  obtain ⟨o, ho⟩ := htot
+  have := line_never_escapes_partial env henv line o ho
+    (fun fcmd' tcmds' F hs' hb' => by
+      rw [hsplit] at hs'
+      simp only [List.cons.injEq] at hs'
+      obtain ⟨rfl, _⟩ := hs'
+      rcases hbf with hb | ⟨r, c, hb, hF⟩
+      · rw [hb] at hb'; cases hb'
+      · rw [hb] at hb'
+        simp only [Option.some.injEq, Except.ok.injEq, Built.result.injEq] at hb'
+        subst hb'
+        exact mapped_formula_wf _ graphOK_one c F hF)
+    (fun fcmd' tcmds' e hs' hb' => by
+      rw [hsplit] at hs'
+      simp only [List.cons.injEq] at hs'
+      obtain ⟨rfl, _⟩ := hs'
+      rcases hbf with hb | ⟨r, c, hb, hF⟩
+      · rw [hb] at hb'; cases hb'
+      · rw [hb] at hb'
+        simp only [Option.some.injEq, Except.ok.injEq, Built.result.injEq] at hb'
+        subst hb'
+        have h1 : evalCall c = some (forget (Except.error e : Except Err Formula)) := by
+          rw [ctext_evalCall_of_F ⟨1, 0, [[], []], []⟩ c, hF]; rfl
+        rcases evalCall_clean c _ h1 with h2 | h2
+        · simp [forget, Except.map] at h2
+        · simpa [forget, Except.map] using h2)
+  rcases this with rfl | rfl
+  · exact Or.inl ho
+  · exact Or.inr ho
+
+/-- the hypotheses are satisfiable, and the conclusion is what the model computes -/
+example : cliOutcomeLine detEnv ["php", "x", "-T", "xor", "2"] = some .cliError := by decide +kernel
+example : cliOutcomeLine detEnv ["bphp", "3", "2", "-T", "xor", "2", "-T", "none", "-T", "lift", "0"] =
+    some .cliError := by decide +kernel
+example : cliOutcomeLine detEnv ["bphp", "3", "2", "-T", "xor", "2", "-T", "none", "-T", "flip"] = some .ok := by
+  decide +kernel
+example : ChunkCovered ["xor", "2"] :=
+  Or.inr (Or.inr ⟨"xor", ["2"], (helpers.find? (fun h => h.kind == "transformation" && h.name == "xor")).get
+    (by decide +kernel), (cliSpecs.find? (fun s => s.kind == "transformation" && s.name == "xor")).get
+    (by decide +kernel), rfl, by decide +kernel, by decide +kernel, by decide +kernel, by decide +kernel⟩)
+
 end Cnfgen.C18
